@@ -3,7 +3,6 @@ package c19
 import (
 	"fmt"
 	"math"
-	"time"
 
 	"verif/internal/h"
 
@@ -205,35 +204,15 @@ func runBoot(c BootCase, rec *h.Rec) error {
 		// bounded time: the prime search must not walk through 2^64/NthRoot candidates
 		rec.Class("sizes=wild")
 		const hk = "C19:boot:size-request-outside-1..61:does-not-return"
-		if leakedSpinners.Load() >= 2 {
-			return h.Failf(hk, "not re-executed: two spinning goroutines already leaked in this process")
+		pan, werr := guarded(rec, hk, "bootstrapping.NewParametersFromLiteral with a size request outside 1..61, literal "+string(bin), func() {
+			bp, err = bootstrapping.NewParametersFromLiteral(res, lit)
+			bp2, err2 = bootstrapping.NewParametersFromLiteral(res, lit2)
+		})
+		if werr != nil {
+			return werr
 		}
-		type res2 struct {
-			a, b   bootstrapping.Parameters
-			e1, e2 error
-			pan    any
-		}
-		ch := make(chan res2, 1)
-		go func() {
-			defer func() {
-				if r := recover(); r != nil {
-					ch <- res2{pan: r}
-				}
-			}()
-			var r res2
-			r.a, r.e1 = bootstrapping.NewParametersFromLiteral(res, lit)
-			r.b, r.e2 = bootstrapping.NewParametersFromLiteral(res, lit2)
-			ch <- r
-		}()
-		select {
-		case r := <-ch:
-			if r.pan != nil {
-				return h.Failf("C19:boot:size-request-outside-1..61:panic", "bootstrapping.NewParametersFromLiteral panics: %v; literal %s", r.pan, bin)
-			}
-			bp, bp2, err, err2 = r.a, r.b, r.e1, r.e2
-		case <-time.After(20 * time.Second):
-			leakedSpinners.Add(1)
-			return h.Failf(hk, "bootstrapping.NewParametersFromLiteral did not return within 20 s; literal %s", bin)
+		if pan != nil {
+			return h.Failf("C19:boot:size-request-outside-1..61:panic", "bootstrapping.NewParametersFromLiteral panics: %v; literal %s", pan, bin)
 		}
 	}
 	if (err == nil) != (err2 == nil) {
